@@ -18,7 +18,7 @@ for lab in sorted(os.listdir(src)):
         continue
     out = os.path.join("/verif/seeded", lab)
     os.makedirs(out, exist_ok=True)
-    for f in ("patch.diff", "demo.py", "notes.md", "notes_original.md"):
+    for f in ("patch.diff", "patch_original.diff", "demo.py", "notes.md", "notes_original.md"):
         if os.path.exists(os.path.join(d, f)):
             shutil.copy(os.path.join(d, f), os.path.join(out, f))
     notes = open(os.path.join(d, "notes.md")).read()
